@@ -17,6 +17,8 @@ pub enum Error {
     MessageIdCollision { message_id: rpc::MessageId },
     ReadMessage(ReadError),
     Transport,
+    DequeueMessage,
+    EnqueueMessage,
     Rpc,
 }
 impl From<ReadError> for Error { #[verifier::external_body] fn from(e: ReadError) -> (r: Error) { unimplemented!() } }
@@ -44,9 +46,13 @@ impl PartialReply {
 //@contract
         ensures res == self.message_id,
 //@end
-    // ServerMsg::recv: the next message from the transport (arbitrary)
+    // ServerMsg::recv: the next message from the transport (arbitrary); an Err is a transport / framing / decoding failure.
+    // Reading again from a transport that has just reported a failure is a retry loop: a peer that is gone makes it spin (C07).
     #[verifier::external_body]
-    pub fn recv(rx: &mut RecvHandle) -> (r: Result<PartialReply, Error>) { unimplemented!() }
+    pub fn recv(rx: &mut RecvHandle) -> (r: Result<PartialReply, Error>)
+        requires !old(rx).failed@,                                                           // OBL:C07+C05.session.transport_error_is_not_retried
+        ensures final(rx).failed@ == (r is Err),
+    { unimplemented!() }
 }
 // Reply<O> { message_id, inner }: the second parse phase; from_xml parses the whole buffered document
 pub struct ReplyInner { pub doc: u64 }
@@ -66,14 +72,15 @@ impl Reply {
 }
 } // mod rpc
 
-pub struct RecvHandle;
+pub struct RecvHandle { pub failed: Ghost<bool> }
 pub struct RxMutex { pub h: RecvHandle }
 impl RxMutex {
     // Arc<Mutex<RecvHandle>>::lock().await  (sequential model: exclusive access)
     #[verifier::external_body]
-    pub fn lock(&mut self) -> (r: &mut RecvHandle) { unimplemented!() }
+    pub fn lock(&mut self) -> (r: &mut RecvHandle) ensures *r == old(self).h, final(self).h == *final(r) { unimplemented!() }
 }
-pub fn drop<T>(t: T) {}
+// std::mem::drop of the receive guard: releases the lock, the handle itself is untouched
+pub fn drop(t: &mut RecvHandle) ensures *final(t) == *old(t) {}
 
 //@item file=netconf/src/session.rs kind=enum name=OutstandingRequest sub=/enum OutstandingRequest=>pub enum OutstandingRequest/
 impl OutstandingRequest {
@@ -216,11 +223,13 @@ impl Session {
 //@+ sub=/partial.try_into()=>rpc::Reply::try_from(partial)/
 //@sig #[verifier::exec_allows_no_decreases_clause] pub fn recv(message_id: rpc::MessageId, requests: &mut ReqMap, rx: &mut RxMutex) -> (res: Result<rpc::ReplyOk, Error>)
 //@contract
-    requires inv(old(requests).m@),
+    requires inv(old(requests).m@), !old(rx).h.failed@,
     ensures
         inv(final(requests).m@),                                                            // OBL:C05.recv.replies_parked_under_own_id
 //@loop 1
-        invariant inv(requests.m@),                                                         // OBL:C05.recv.lock_invariant
+        invariant
+            !rx.h.failed@,                                                                  // OBL:C07+C05.session.transport_error_surfaces_at_once
+            inv(requests.m@),                                                         // OBL:C05.recv.lock_invariant
         // (no decreases: liveness / termination of the receive loop is NOT claimed - it waits for the server)
 //@before /let mut rx_guard = rx\.lock\(\)/
             // suspension points `rx.lock().await` / `PartialReply::recv(..).await`: other tasks may run
@@ -230,7 +239,7 @@ impl Session {
                 // taken from the caller's own slot, which is thereby completed (never delivered twice)
                 assert(reply.message_id == message_id);                                     // OBL:C05.recv.caller_gets_reply_with_own_id
                 assert(requests.m@[message_id] is Complete);                                // OBL:C05.recv.delivered_at_most_once
-//@before /let reply = rpc::PartialReply::recv/
+//@before /rpc::PartialReply::recv\(/ optional
             requests.interference(Ghost(message_id));
 //@end
 
